@@ -180,6 +180,9 @@ func retry(r *FnResult, ob *Obligation, o solveOpts) {
 			classify(ob, x.ans)
 			ob.Solver = x.s.name
 			ob.Secs = x.secs
+			if ob.Stage == "" {
+				ob.Stage = "retry"
+			}
 			if x.ans == "sat" && ob.Kind != "cover" {
 				ob.Model = trimModel(x.raw)
 			}
